@@ -25,6 +25,8 @@ Decided clauses:
   R4.9 HMAC key preparation (RFC 2104): in crypto_auth_hmacsha256_init / _hmacsha512_init the block size B is the length of the
        ipad / opad block handed to the hash; the caller's key is hashed first exactly on the paths whose branch facts give
        keylen >= B + 1, and used directly only with keylen <= B (which also bounds the `pad[i] ^= key[i]` loop).
+  R4.11 blake2b_update compresses only under a strict `remaining > K` guard followed by `remaining -= K` (the last block is left
+        to *_final).
   R4.10 HKDF-Expand chains each block to its predecessor (RFC 5869: T(i) = HMAC(PRK, T(i-1) || info || i)): wherever a block of the
         output buffer is fed back into the HMAC, its address is the destination of the block being produced minus the hash length -
         in both the full-block loop and the partial tail, for SHA-256 and SHA-512.
@@ -170,6 +172,7 @@ def run(ctx, chk):
     schedule_rule(prog, chk)
     hmac_key_rule(prog, chk)
     hkdf_chain_rule(prog, chk)
+    last_block_rule(prog, chk)
 
 
 BLAKE2B_VECTOR = ("blake2b_compress_ssse3", "blake2b_compress_sse41", "blake2b_compress_avx2")
@@ -287,6 +290,98 @@ def _phi_is_last_block(fn, call_iid):
         else:
             leaves.add(_ptr_key(fn, o))
     return bool(seen) and bool(leaves) and leaves <= finals
+
+
+def last_block_rule(prog, chk):
+    """R4.11: BLAKE2b's update never compresses what may be the last block (only *_final may, with the finalisation flag set).
+    Every compression in blake2b_update sits under the true edge of a strict guard `remaining > K` on a loop-carried length
+    counter, and the counter is decremented by that same K in the same iteration - so input remains after every compression.
+    A fast path that compresses while `remaining > 0` (or `>= K`) hashes inputs whose length is a multiple of the block size
+    differently from the one-shot call."""
+    from ..loopinv import natural_loops
+    fn = prog.need("blake2b_update", rule="R4.11")
+    blocks = fn.blocks
+
+    def dominates(a, b):
+        while b not in (-1, None):
+            if a == b:
+                return True
+            b = blocks[b].get("idom", -1)
+        return False
+
+    def is_compress(ins):
+        if ins["op"] != "call":
+            return False
+        cal = ins.get("callee")
+        if not cal:
+            return False
+        if cal[0] == "g":
+            return cal[1].startswith("blake2b_compress")
+        if cal[0] == "v":
+            src = fn.insts[cal[1]]
+            return src["op"] == "load" and src["ops"][0][0] == "g" and src["ops"][0][1].startswith("blake2b_compress")
+        return False
+    loops = natural_loops(fn)
+    # decrement sites of loop-carried 64-bit counters: (header phi id, block of the sub, amount operand)
+    decs = []
+    for h, body in loops.items():
+        for pid in blocks[h]["insts"]:
+            ph = fn.insts[pid]
+            if ph["op"] != "phi" or ph.get("ty") != "i64":
+                continue
+            seen, stack = set(), [v for v, b in ph["inc"] if b in body]
+            while stack:
+                v = stack.pop()
+                if v[0] != "v" or v[1] in seen:
+                    continue
+                seen.add(v[1])
+                d = fn.insts[v[1]]
+                if d["op"] == "phi" and d["b"] in body and v[1] != pid:
+                    stack.extend(x for x, _b in d["inc"])
+                elif d["op"] == "sub" and d["ops"][0] == ["v", pid]:
+                    decs.append((pid, d["b"], d["ops"][1]))
+                elif d["op"] == "add" and d["ops"][0] == ["v", pid] and d["ops"][1][0] == "i" and d["ops"][1][1] >= 1 << 63:
+                    decs.append((pid, d["b"], ["i", (1 << 64) - d["ops"][1][1], 64]))
+    n = 0
+    for i, ins in enumerate(fn.insts):
+        if not is_compress(ins):
+            continue
+        n += 1
+        B = ins["b"]
+        near = [(pid, k) for pid, b, k in decs if dominates(B, b)]
+        ok, why = False, "no loop-carried length counter is decremented after this compression"
+        for pid, k in near:
+            # a dominating strict guard `counter > k`
+            x = B
+            found = None
+            while x not in (-1, None):
+                d = blocks[x].get("idom", -1)
+                if d in (-1, None):
+                    break
+                term = fn.insts[blocks[d]["insts"][-1]]
+                if term["op"] == "br" and term.get("cond") and term["cond"][0] == "v" and len(term["succ"]) == 2 and term["succ"][0] != term["succ"][1]:
+                    c = fn.insts[term["cond"][1]]
+                    t_edge = dominates(term["succ"][0], B) and not dominates(term["succ"][1], B)
+                    if c["op"] == "icmp" and t_edge:
+                        a, b2, pr = c["ops"][0], c["ops"][1], c.get("pred")
+                        if pr == "ult":
+                            a, b2, pr = b2, a, "ugt"
+                        if a == ["v", pid]:
+                            found = (pr, b2)
+                            if pr == "ugt" and b2[:2] == k[:2]:
+                                ok = True
+                                break
+                x = d
+            if ok:
+                break
+            nm = fn.insts[pid].get("name", "%%%d" % pid)
+            why = ("the length counter %s is decremented by %s after the compression, but the compression is %s: the counter may reach 0 here, "
+                   "i.e. the last block of the input is compressed as a non-final block" %
+                   (nm, T.show(cm.operand_term(fn, k), fn) if hasattr(cm, "operand_term") else k[1],
+                    "not under a guard on it" if found is None else "only guarded by `%s %s %s`" % (nm, found[0], found[1][1])))
+        chk.ob("R4.11", fn, "compression at %s happens only while input remains after it (strict guard `remaining > K`, then `remaining -= K`)" % fn.loc(i),
+               ok, loc=fn.loc(i), detail="" if ok else why, key="R4.11 blake2b_update compress")
+    chk.floor("R4.11", "compressions in blake2b_update", n, 1)
 
 
 def hkdf_chain_rule(prog, chk):
